@@ -201,16 +201,23 @@ def o4(run, project):
     from .c04 import named_range_contains
     names = (f"f'{{self._basename}}{{self._sep}}{{int({num}) - self._start:0{{self._index_nibbles}}x}}'",
              f"f'{{self._basename}}{{self._sep}}{{{num} - self._start:0{{self._index_nibbles}}x}}'")
-    inside = [p for p in paths.summarise(mod, f) if (p.truth(f"{num} < self._start") is False and p.truth(f"{num} < self._end") is True)
-              or p.truth(f"{num} in self") is True]
-    run.require(len(inside) >= 1, "O4: NamedRange.by_number has no path for a number inside the range")
-    for p in inside:
-        got = p.value_text() if p.end == "return" else p.end
-        ok = got in [f"self._type(value={num}, name={nm})" for nm in names]
-        run.ob("O4", ok, "range member carries the number itself and the name basename + sep + zero-padded hex offset",
-               f"for a number inside the range by_number gives `{got}`; required: self._type(value={num}, name=<basename><sep><offset "
-               "from start as hex, padded with zeros to index_nibbles digits>)", module=mod, node=p.node or f, func="NamedRange.by_number",
-               construct="by_number member")
+    ps_ = paths.summarise(mod, f)
+    atoms_ = {a_ for p in ps_ for a_, _v, _ in p.cond}
+    rows_ = [({f"{num} in self": True}, "member")] if f"{num} in self" in atoms_ else \
+        [({f"{num} < self._start": False, f"{num} < self._end": True}, "member")]
+    members = [f"self._type(value={num}, name={nm})" for nm in names]
+
+    def observe(p):
+        t = p.value_text() if p.end == "return" else p.end
+        if t in members:
+            return "member"
+        if p.end in ("return", "raise") and p.value is not None and (call_name(p.value) or "") == "ValueError":
+            return "no member"
+        return t
+    n = check_table(run, "O4", mod, f, "NamedRange.by_number", rows_, observe, "no member",
+                    "a number inside [start, end) gives self._type(value=number, name=<basename><sep><offset from start as hex, padded "
+                    "with zeros to index_nibbles digits>), any other number gives no member", "by_number member", ps=ps_)
+    run.require(n >= 2, "O4: NamedRange.by_number has no two outcomes")
     n = check_table(run, "O4", mod, ini, "NamedRange.__init__",
                     [({"index_nibbles is None": True}, "ceil((self._end - self._start - 1).bit_length() / 4.0)"),
                      ({"index_nibbles is None": False}, "index_nibbles")],
